@@ -611,7 +611,9 @@ func hasTier(h HarnessSpec, tier string) bool {
 func configureEngine() {
 	interp.InitAllow = []string{"metacontroller/"}
 	// generated clientset/informer packages build REST codecs in their initialisers
-	interp.InitDeny = []string{"metacontroller/pkg/client/generated/", "metacontroller/pkg/metrics"}
+	// (pkg/metrics: its two globals - the instrumentation cache and the registerer -
+	// are initialised; building and registering collectors is modelled, engine.d/c19.json)
+	interp.InitDeny = []string{"metacontroller/pkg/client/generated/"}
 	interp.InitAllowExact = map[string]bool{
 		"k8s.io/client-go/util/retry": true,
 		// knownReasons: a map literal of constants
@@ -628,6 +630,7 @@ func configureEngine() {
 		"k8s.io/apimachinery/pkg/labels.Everything":                                               m + "Labels_Everything",
 		"k8s.io/apimachinery/pkg/labels.Nothing":                                                  m + "Labels_Nothing",
 		"k8s.io/client-go/util/retry.RetryOnConflict":                                             m + "RetryOnConflict",
+		"k8s.io/client-go/util/retry.OnError":                                                     m + "RetryOnError",
 	}
 }
 
